@@ -109,9 +109,12 @@ def build(reg, src):
     reg.fn(F + '_write_file', params=dict(file_name=FKey, new_file_contents=Str, use_fsync=Bool), setup=wf_full_setup,
            requires=[not_held, lambda s: len_(s.new_file_contents) <= VInt(A(s.st, s.self)['max'])], returns='opaque', ensures=[not_held])
     from replay import c18 as rp
+    reg.replays.append((r'update_file_futures_and_memory#(call|release|assert)', rp.replay_late_load_under_pressure))
     reg.replays.append((r'update_file_futures_and_memory#assert', rp.replay_unload_during_load))
     reg.replays.append((r'update_file_futures_and_memory#release', rp.replay_double_count))
     reg.replays.append((r'_load_file|update_file_futures_and_memory#post', rp.replay_stale_load))
+    rp.replay_append_lock.timeout_s = 90
+    reg.replays.append((r'#append-lock\.', rp.replay_append_lock))       # sub-verification battery: run proactively by the thorough tier
     reg.replays.append((r'.', rp.replay_generic))
 
 
